@@ -9,13 +9,9 @@
     vanish_last_doc              deleting the last document of a collection that was not
                                  explicitly created makes it (and possibly its database) vanish
     vanish_last_index            same when its last index is dropped (drop_index / drop_indexes)
-    rename_self_droptarget       rename_collection(n, n, dropTarget=True) destroys the data
-    filter_lists_uncreated       list_collection_names(filter=…) lists names that do not exist
-                                 (only read, or dropped)
-    drop_database_foreign_handle drop_database(<Database of another client>) raises StopIteration
-    drop_collection_foreign_handle  db.drop_collection(<Collection of another database>) drops
-                                 that other collection instead of db's collection of that name
-    system_create_existing       create_collection on an existing `system.` collection succeeds
+  Repaired in the library, no longer excluded (a recurrence is a violation):
+    rename_self_droptarget, filter_lists_uncreated, drop_database_foreign_handle,
+    drop_collection_foreign_handle, system_create_existing
   Scope limits:
     unobtained_handle            a handle used before it was obtained (cannot happen in Python)
     filter_falsy_name            list_collection_names(filter={'name': ''}): NotImplementedError
@@ -47,32 +43,8 @@ def vanishes (σ : Nat → Nat) (w : World) : Op → Bool
     !o.isDrop && c.isCreated && !(collOp o c).1.isCreated
   | _ => false
 
-def renameSelfDrop (σ : Nat → Nat) (w : World) : Op → Bool
-  | .collRename h n' dt =>
-    dt && h.coll == n' && ((w.store (σ h.client)).coll h.db h.coll).isCreated
-  | .renameCollection h n n' dt => dt && n == n' && ((w.store (σ h.client)).coll h.db n).isCreated
-  | _ => false
-
-def filterListsUncreated (σ : Nat → Nat) (w : World) : Op → Bool
-  | .listCollectionNames h (some f) =>
-    ((w.store (σ h.client)).listCollsFiltered h.db f).any
-      (fun n => !((w.store (σ h.client)).coll h.db n).isCreated)
-  | _ => false
-
 def filterFalsy : Op → Bool
   | .listCollectionNames _ (some f) => f.falsy
-  | _ => false
-
-def foreignDbHandle : Op → Bool
-  | .dropDatabase c (.byHandle h) => h.client != c
-  | _ => false
-
-def foreignCollHandle (σ : Nat → Nat) : Op → Bool
-  | .dropCollection h (.byHandle h') => !(σ h'.client == σ h.client && h'.db == h.db)
-  | _ => false
-
-def systemCreateExisting (σ : Nat → Nat) (w : World) : Op → Bool
-  | .createCollection h n => isSystem n && ((w.store (σ h.client)).coll h.db n).isCreated
   | _ => false
 
 def vanishClass : Op → String
@@ -83,18 +55,11 @@ def vanishClass : Op → String
 def reasons (σ : Nat → Nat) (w : World) (op : Op) : List String :=
   (if handlesObtained w op then [] else ["unobtained_handle"]) ++
   (if vanishes σ w op then [vanishClass op] else []) ++
-  (if renameSelfDrop σ w op then ["rename_self_droptarget"] else []) ++
-  (if filterListsUncreated σ w op then ["filter_lists_uncreated"] else []) ++
-  (if filterFalsy op then ["filter_falsy_name"] else []) ++
-  (if foreignDbHandle op then ["drop_database_foreign_handle"] else []) ++
-  (if foreignCollHandle σ op then ["drop_collection_foreign_handle"] else []) ++
-  (if systemCreateExisting σ w op then ["system_create_existing"] else [])
+  (if filterFalsy op then ["filter_falsy_name"] else [])
 
 /-- the step is in the domain of the refinement theorem -/
 def inD (σ : Nat → Nat) (w : World) (op : Op) : Bool :=
-  handlesObtained w op && !vanishes σ w op && !renameSelfDrop σ w op && !filterListsUncreated σ w op
-    && !filterFalsy op && !foreignDbHandle op && !foreignCollHandle σ op
-    && !systemCreateExisting σ w op
+  handlesObtained w op && !vanishes σ w op && !filterFalsy op
 
 /-- every step of the history is in D at the state it is taken from -/
 def histInD (σ : Nat → Nat) : World → List Op → Bool
@@ -168,13 +133,19 @@ def mayRemove (σ : Nat → Nat) (i : Nat) (d n : String) : Op → Bool
 /-- the namespace counts as existing in the model state -/
 def created (w : World) (i : Nat) (d n : String) : Bool := ((w.store i).coll d n).isCreated
 
-/-- the three ways of dropping the namespace a handle `h` denotes -/
+/-- the five ways of dropping the namespace a handle `h` denotes: `drop_collection` by name or
+    by any Collection handle of that name (whatever database or client it comes from),
+    `coll.drop()`, `drop_database` by name or by any Database handle of that name -/
 def Drops (σ : Nat → Nat) (w : World) (op : Op) (h : CollH) : Prop :=
   (∃ hd, op = .dropCollection hd (.byName h.coll) ∧ obtainedDb w hd = true ∧
     σ hd.client = σ h.client ∧ hd.db = h.db) ∨
   (∃ h', op = .coll h' .drop ∧ obtainedColl w h' = true ∧
     σ h'.client = σ h.client ∧ h'.db = h.db ∧ h'.coll = h.coll) ∨
-  (∃ c, op = .dropDatabase c (.byName h.db) ∧ σ c = σ h.client)
+  (∃ c, op = .dropDatabase c (.byName h.db) ∧ σ c = σ h.client) ∨
+  (∃ hd h', op = .dropCollection hd (.byHandle h') ∧ obtainedDb w hd = true ∧
+    obtainedColl w h' = true ∧ σ hd.client = σ h.client ∧ hd.db = h.db ∧ h'.coll = h.coll) ∨
+  (∃ c hd, op = .dropDatabase c (.byHandle hd) ∧ obtainedDb w hd = true ∧
+    σ c = σ h.client ∧ hd.db = h.db)
 
 /-- a state some history leads to from the empty world -/
 def Reachable (σ : Nat → Nat) (w : World) : Prop := ∃ ops, w = (MongoModel.Catalog.run σ World.init ops).1
